@@ -218,6 +218,81 @@ func sameEl(a, b []banderwagon.Element) bool {
 	return bytes.Equal(elemsBytes(a), elemsBytes(b))
 }
 
+// withSpare returns the same values in a slice that has spare capacity filled with canary values; afterSpare reports
+// whether the hidden part behind len() was written to (append-aliasing into the caller's backing array).
+func withSpareEl(v []*banderwagon.Element, canary *banderwagon.Element) []*banderwagon.Element {
+	out := make([]*banderwagon.Element, len(v), len(v)+3)
+	copy(out, v)
+	full := out[:cap(out)]
+	for i := len(v); i < len(full); i++ {
+		full[i] = canary
+	}
+	return out
+}
+func spareElIntact(v []*banderwagon.Element, canary *banderwagon.Element) bool {
+	full := v[:cap(v)]
+	for i := len(v); i < len(full); i++ {
+		if full[i] != canary {
+			return false
+		}
+	}
+	return true
+}
+func withSpareFrPtr(v []*fr.Element, canary *fr.Element) []*fr.Element {
+	out := make([]*fr.Element, len(v), len(v)+3)
+	copy(out, v)
+	full := out[:cap(out)]
+	for i := len(v); i < len(full); i++ {
+		full[i] = canary
+	}
+	return out
+}
+func spareFrPtrIntact(v []*fr.Element, canary *fr.Element) bool {
+	full := v[:cap(v)]
+	for i := len(v); i < len(full); i++ {
+		if full[i] != canary {
+			return false
+		}
+	}
+	return true
+}
+func withSpareBytes(v []uint8) []uint8 {
+	out := make([]uint8, len(v), len(v)+5)
+	copy(out, v)
+	full := out[:cap(out)]
+	for i := len(v); i < len(full); i++ {
+		full[i] = 0xA5
+	}
+	return out
+}
+func spareBytesIntact(v []uint8) bool {
+	full := v[:cap(v)]
+	for i := len(v); i < len(full); i++ {
+		if full[i] != 0xA5 {
+			return false
+		}
+	}
+	return true
+}
+func withSparePolys(v [][]fr.Element, canary []fr.Element) [][]fr.Element {
+	out := make([][]fr.Element, len(v), len(v)+2)
+	copy(out, v)
+	full := out[:cap(out)]
+	for i := len(v); i < len(full); i++ {
+		full[i] = canary
+	}
+	return out
+}
+func sparePolysIntact(v [][]fr.Element, canary []fr.Element) bool {
+	full := v[:cap(v)]
+	for i := len(v); i < len(full); i++ {
+		if len(full[i]) != len(canary) || (len(canary) > 0 && &full[i][0] != &canary[0]) {
+			return false
+		}
+	}
+	return true
+}
+
 type c13Env struct {
 	lastSet   *builtSet
 	lastProof *multiproof.MultiProof
@@ -275,9 +350,14 @@ func doCall(env *c13Env, c pcall, rec *hx.Rec) error {
 			polys[i] = snapFr(b.polysFr[i])
 		}
 		zs := append([]uint8(nil), b.zs...)
+		canaryEl, canaryPoly := new(banderwagon.Element), make([]fr.Element, 256)
+		b.Cs, b.fs, b.zs = withSpareEl(b.Cs, canaryEl), withSparePolys(b.fs, canaryPoly), withSpareBytes(b.zs)
 		proof, perr := multiproof.CreateMultiProof(common.NewTranscript(set.Label), cfg, b.Cs, b.fs, b.zs)
 		if perr != nil {
 			return fail("honest proving failed: %v", perr)
+		}
+		if !spareElIntact(b.Cs, canaryEl) || !sparePolysIntact(b.fs, canaryPoly) || !spareBytesIntact(b.zs) {
+			return fail("CreateMultiProof wrote behind the end of a caller-supplied slice (append into the caller's backing array)")
 		}
 		for i := range polys {
 			if !sameFr(polys[i], b.polysFr[i]) {
@@ -320,12 +400,22 @@ func doCall(env *c13Env, c pcall, rec *hx.Rec) error {
 		for i := range b.Cs {
 			csSnap[i] = *b.Cs[i]
 		}
-		zs := append([]uint8(nil), b.zs...)
+		zs := withSpareBytes(b.zs)
 		proofSnap := *env.lastProof
 		lSnap, rSnap := snapEl(env.lastProof.IPA.L), snapEl(env.lastProof.IPA.R)
-		ok, verr := multiproof.CheckMultiProof(common.NewTranscript(env.lastLabel), cfg, env.lastProof, b.Cs, ys, zs)
+		canaryEl, canaryFr := new(banderwagon.Element), new(fr.Element)
+		csArg, ysArg := withSpareEl(b.Cs, canaryEl), withSpareFrPtr(ys, canaryFr)
+		ok, verr := multiproof.CheckMultiProof(common.NewTranscript(env.lastLabel), cfg, env.lastProof, csArg, ysArg, zs)
 		if verr != nil || ok != (c.Op == "multiverify") {
 			return fail("verdict (%v, %v) for a %s statement", ok, verr, c.Op)
+		}
+		if !spareElIntact(csArg, canaryEl) || !spareFrPtrIntact(ysArg, canaryFr) || !spareBytesIntact(zs) {
+			return fail("CheckMultiProof wrote behind the end of a caller-supplied slice (append into the caller's backing array)")
+		}
+		for i := range csArg {
+			if csArg[i] != b.Cs[i] || ysArg[i] != ys[i] {
+				return fail("CheckMultiProof replaced a pointer in a caller-supplied slice")
+			}
 		}
 		for i := range ys {
 			if *ys[i] != ysSnap[i] {
@@ -335,7 +425,7 @@ func doCall(env *c13Env, c pcall, rec *hx.Rec) error {
 				return fail("commitment %d was modified by verification", i)
 			}
 		}
-		if !bytes.Equal(zs, b.zs) {
+		if !bytes.Equal(zs, b.zs[:len(zs)]) {
 			return fail("indices modified")
 		}
 		if env.lastProof.D != proofSnap.D || env.lastProof.IPA.A_scalar != proofSnap.IPA.A_scalar || !sameEl(lSnap, env.lastProof.IPA.L) || !sameEl(rSnap, env.lastProof.IPA.R) {
@@ -390,9 +480,9 @@ func doCall(env *c13Env, c pcall, rec *hx.Rec) error {
 		if c.Op == "msm_short" {
 			n = c.N % 4
 		}
-		pts := make([]banderwagon.Element, n)
-		sc := make([]fr.Element, n)
-		mont := c.Op != "multiexp_regular"
+		pts := make([]banderwagon.Element, n, n+2)
+		sc := make([]fr.Element, n, n+2)
+		mont := c.Op != "multiexp_regular" && !(c.Op == "msm_short" && c.Flag)
 		for i := range pts {
 			pts[i] = poolElem(c.Seed + uint64(i))
 			v := hx.ExpandFr(c.Seed, "c13sc", i)
@@ -408,7 +498,19 @@ func doCall(env *c13Env, c pcall, rec *hx.Rec) error {
 			return fail("%v", err)
 		}
 		if !sameEl(ps, pts) || !sameFr(ss, sc) {
-			return fail("points or scalars of the MSM were modified (mont=%v)", mont)
+			return fail("points or scalars of the MSM were modified (n=%d, mont=%v)", n, mont)
+		}
+		var zeroEl banderwagon.Element
+		var zeroFr fr.Element
+		for _, e := range pts[:cap(pts)][n:] {
+			if e != zeroEl {
+				return fail("MultiExp wrote behind the end of the points slice")
+			}
+		}
+		for _, e := range sc[:cap(sc)][n:] {
+			if e != zeroFr {
+				return fail("MultiExp wrote behind the end of the scalars slice")
+			}
 		}
 	case "elem_codec":
 		e := poolElem(c.Seed)
